@@ -48,10 +48,96 @@ func specCollectionElem(t types.Type) string {
 // packages for the scanner) must treat every element — each way of leaving an iteration early
 // (continue, break, successful return) is a frozen, reasoned entry of `allow`; a new one is a
 // dropped element until shown otherwise.
+// canonGuard renders a condition with local variables and parameters replaced by their types, so
+// that the reviewed table survives renames but not a change of what is tested.
+func canonGuard(info *types.Info, e ast.Expr) string {
+	var r func(e ast.Expr) string
+	r = func(e ast.Expr) string {
+		switch x := e.(type) {
+		case *ast.Ident:
+			if v, ok := info.ObjectOf(x).(*types.Var); ok && !v.IsField() && v.Parent() != nil && v.Parent() != v.Pkg().Scope() {
+				t := types.TypeString(v.Type(), func(p *types.Package) string { return p.Name() })
+				return "‹" + t + "›"
+			}
+			return x.Name
+		case *ast.SelectorExpr:
+			return r(x.X) + "." + x.Sel.Name
+		case *ast.ParenExpr:
+			return "(" + r(x.X) + ")"
+		case *ast.UnaryExpr:
+			return x.Op.String() + r(x.X)
+		case *ast.StarExpr:
+			return "*" + r(x.X)
+		case *ast.BinaryExpr:
+			return r(x.X) + " " + x.Op.String() + " " + r(x.Y)
+		case *ast.IndexExpr:
+			return r(x.X) + "[" + r(x.Index) + "]"
+		case *ast.CallExpr:
+			var as []string
+			for _, a := range x.Args {
+				as = append(as, r(a))
+			}
+			return r(x.Fun) + "(" + strings.Join(as, ", ") + ")"
+		case *ast.BasicLit:
+			return x.Value
+		case *ast.TypeAssertExpr:
+			return r(x.X) + ".(" + goan.ExprString(x.Type) + ")"
+		}
+		return goan.ExprString(e)
+	}
+	return r(e)
+}
+
+// guardsOf lists, outermost first, the canonical conditions of the `if`s (positive arm; `else` arms as
+// negations) that enclose pos inside body, stopping at nested loops and function literals.
+func guardsOf(info *types.Info, body *ast.BlockStmt, pos token.Pos) string {
+	var out []string
+	var walk func(n ast.Node) bool
+	walk = func(n ast.Node) bool {
+		found := false
+		ast.Inspect(n, func(m ast.Node) bool {
+			if found || m == nil {
+				return false
+			}
+			if m.Pos() > pos || m.End() < pos {
+				return false
+			}
+			if ifs, ok := m.(*ast.IfStmt); ok && m != n {
+				if ifs.Body.Pos() <= pos && pos <= ifs.Body.End() {
+					out = append(out, canonGuard(info, ifs.Cond))
+					found = walk(ifs.Body) || true
+					return false
+				}
+				if ifs.Else != nil && ifs.Else.Pos() <= pos && pos <= ifs.Else.End() {
+					out = append(out, "!("+canonGuard(info, ifs.Cond)+")")
+					found = walk(ifs.Else) || true
+					return false
+				}
+			}
+			return true
+		})
+		return found
+	}
+	walk(body)
+	return strings.Join(out, " ∧ ")
+}
+
 func checkLoopTotality(c *Ctx, rule string, pk *packages.Package, label string, floor int, allow map[string]string) {
 	c.Rule(rule, "loops over collections of the input leave an iteration early (continue, break, success return) only at the reviewed sites", floor)
 	info := pk.TypesInfo
 	seen := map[string]bool{}
+	// reviewed(key, cond): the entry exists and was reviewed under the same condition
+	reviewed := func(key, cond string) (bool, string) {
+		v, ok := allow[key]
+		if !ok {
+			return false, "not in the reviewed table (condition now: " + cond + ")"
+		}
+		want, why, _ := strings.Cut(v, " ⇒ ")
+		if want != cond {
+			return false, "reviewed under [" + want + "], now under [" + cond + "]"
+		}
+		return true, why
+	}
 	for _, fd := range load.AllFuncs(pk) {
 		fd := fd
 		ordinal := map[string]int{}
@@ -112,24 +198,96 @@ func checkLoopTotality(c *Ctx, rule string, pk *packages.Package, label string, 
 							counts[kind]++
 							key := fmt.Sprintf("%s › %s #%d", loopKey, kind, counts[kind])
 							seen[key] = true
-							why, ok := allow[key]
+							ok, why := reviewed(key, guardsOf(info, body, y.Pos()))
 							c.Check(ok, rule, key, c.posOf(pk, y.Pos()), "reviewed: "+why,
-								"an iteration over a collection of the input is left early at a site that is not in the reviewed table: the remaining work for that element (or for the elements after it) is skipped — a definition, parameter, response, scheme or field can be dropped from the output")
+								"an iteration over a collection of the input is left early at a site that is "+why+": the remaining work for that element (or for the elements after it) is skipped — a definition, parameter, response, scheme or field can be dropped from the output")
 						}
 					case *ast.ReturnStmt:
 						if n := len(y.Results); n > 0 && goan.IsNil(info, y.Results[n-1]) {
 							counts["return"]++
 							key := fmt.Sprintf("%s › success return #%d", loopKey, counts["return"])
 							seen[key] = true
-							why, ok := allow[key]
+							ok, why := reviewed(key, guardsOf(info, body, y.Pos()))
 							c.Check(ok, rule, key, c.posOf(pk, y.Pos()), "reviewed: "+why,
-								"a loop over a collection of the input returns successfully from inside an iteration at a site that is not in the reviewed table: the elements after it are never looked at")
+								"a loop over a collection of the input returns successfully from inside an iteration at a site that is "+why+": the elements after it are never looked at")
 						}
 					}
 					return true
 				})
 			}
 			walk(body, false)
+			// conditional collection: a store into something that outlives the iteration (append to / index of a
+			// variable or field declared outside the loop) that sits under an `if` without else
+			var cwalk func(n ast.Node, cond bool)
+			cwalk = func(n ast.Node, cond bool) {
+				ast.Inspect(n, func(m ast.Node) bool {
+					if m == nil || m == n {
+						return true
+					}
+					switch y := m.(type) {
+					case *ast.FuncLit, *ast.RangeStmt, *ast.ForStmt:
+						return false
+					case *ast.IfStmt:
+						if y.Init != nil {
+							cwalk(y.Init, cond)
+						}
+						if y.Else == nil {
+							cwalk(y.Body, true)
+						} else {
+							cwalk(y.Body, cond)
+							cwalk(y.Else, cond)
+						}
+						return false
+					case *ast.AssignStmt:
+						if !cond || len(y.Lhs) != 1 || len(y.Rhs) != 1 {
+							return true
+						}
+						outer := func(e ast.Expr) bool {
+							root := e
+							for {
+								switch r := root.(type) {
+								case *ast.SelectorExpr:
+									root = r.X
+									continue
+								case *ast.IndexExpr:
+									root = r.X
+									continue
+								case *ast.StarExpr:
+									root = r.X
+									continue
+								case *ast.ParenExpr:
+									root = r.X
+									continue
+								}
+								break
+							}
+							id, ok := root.(*ast.Ident)
+							if !ok {
+								return false
+							}
+							o := info.ObjectOf(id)
+							return o != nil && (o.Pos() < body.Pos() || o.Pos() > body.End())
+						}
+						isStore := false
+						if call, ok := y.Rhs[0].(*ast.CallExpr); ok && goan.IsIdent(call.Fun, "append") && outer(y.Lhs[0]) {
+							isStore = true
+						}
+						if _, ok := y.Lhs[0].(*ast.IndexExpr); ok && outer(y.Lhs[0]) && y.Tok == token.ASSIGN {
+							isStore = true
+						}
+						if isStore {
+							counts["cond"]++
+							key := fmt.Sprintf("%s › conditional store #%d", loopKey, counts["cond"])
+							seen[key] = true
+							ok, why := reviewed(key, guardsOf(info, body, y.Pos()))
+							c.Check(ok, rule, key, c.posOf(pk, y.Pos()), "reviewed: "+why,
+								"inside a loop over a collection of the input, a result is collected at a site that is "+why+": the elements that fail the condition are left out of the output")
+						}
+					}
+					return true
+				})
+			}
+			cwalk(body, false)
 			if len(counts) == 0 {
 				c.Ok(rule, loopKey+" › total", c.posOf(pk, n.Pos()), "no early exit from an iteration")
 			}
